@@ -324,6 +324,8 @@ def build(tier, repo):
         "gees": "real Schur form returns eigenvalues in (wr, wi), complex in w: different argument lists by definition",
         "gges": "generalised real Schur form returns (alphar, alphai, beta): different argument lists by definition",
         "pttrs": "zpttrs takes an extra uplo argument"})
+    cw.routine_name_rule(r5, c, wrappers)
+    cw.subscript_offset_rule(r5, c, wrappers)
     nst = cw.arm_store_rule(r5, c, wrappers)
     chk.note_analysed("arm_store_sets", nst)
     r5.require(35)
@@ -363,6 +365,7 @@ def build(tier, repo):
     r6 = chk.rule("C18-R6", "keyword/format/address tables agree; naming convention of auxiliary arguments; manual signatures are prefixes of the keyword lists",
                   "size-inconsistent arguments raise TypeError/ValueError; documented keywords are accepted")
     cw.signature_rule(r6, c, wrappers)
+    cw.parse_target_rule(r6, c, wrappers)
     cw.naming_rule(r6, c, wrappers)
     rst_path = os.path.join(repo, "doc", "source", "lapack.rst")
     rst = open(rst_path).read() if os.path.exists(rst_path) else ""
